@@ -26,18 +26,19 @@ theorem assertIf_pos (b : Bool) (x y : MS) (h : y ∈ assertIf b x) : y.pos = x.
   unfold assertIf at h; split at h <;> simp at h; subst h; rfl
 
 /-- repLoop results never move left, provided the body never does -/
-theorem repLoop_mono (es5 g : Bool) (f : MS → List MS) (hf : ∀ x y, y ∈ f x → x.pos ≤ y.pos) :
-    ∀ fuel min max x y, y ∈ repLoop es5 g f fuel min max x → x.pos ≤ y.pos := by
+theorem repLoop_mono (g : Bool) (f : MS → List MS) (hf : ∀ x y, y ∈ f x → x.pos ≤ y.pos) :
+    ∀ fuel es5 min max x y, y ∈ repLoop es5 g f fuel min max x → x.pos ≤ y.pos := by
   intro fuel; induction fuel with
-  | zero => intro min max x y h; simp [repLoop] at h
+  | zero => intro es5 min max x y h; simp [repLoop] at h
   | succ fuel ih =>
-    intro min max x y h
+    intro es5 min max x y h
     unfold repLoop at h
     split at h
     · simp at h; subst h; exact Nat.le_refl _
     · have hiter : ∀ y, y ∈ ((f x).flatMap fun y =>
           if es5 then (if min = 0 ∧ y.pos = x.pos then [] else repLoop es5 g f fuel (min - 1) (max.map (· - 1)) y)
-          else (if max = none ∧ min ≤ 1 ∧ y.pos = x.pos then [y] else repLoop es5 g f fuel (min - 1) (max.map (· - 1)) y)) → x.pos ≤ y.pos := by
+          else (if max = none ∧ min ≤ 1 ∧ y.pos = x.pos then [y]
+                else repLoop (decide (max = none ∧ min ≤ 1)) g f fuel (min - 1) (max.map (· - 1)) y)) → x.pos ≤ y.pos := by
         intro y hy
         rw [List.mem_flatMap] at hy
         obtain ⟨z, hz, hy⟩ := hy
@@ -47,12 +48,12 @@ theorem repLoop_mono (es5 g : Bool) (f : MS → List MS) (hf : ∀ x y, y ∈ f 
           simp only [if_true] at hy
           split at hy
           · simp at hy
-          · exact Nat.le_trans hxz (ih _ _ z y hy)
+          · exact Nat.le_trans hxz (ih _ _ _ z y hy)
         | false =>
           simp only [Bool.false_eq_true, if_false] at hy
           split at hy
           · simp at hy; subst hy; exact hxz
-          · exact Nat.le_trans hxz (ih _ _ z y hy)
+          · exact Nat.le_trans hxz (ih _ _ _ z y hy)
       simp only at h
       split at h
       · exact hiter y h
@@ -97,7 +98,7 @@ theorem m_mono (d : Dialect) (s : List Nat) : ∀ (r : Re) (gi : Nat) (x y : MS)
   | quant r q l ih =>
     intro gi x y h
     simp only [m] at h
-    refine repLoop_mono _ _ _ ?_ _ _ _ x y h
+    refine repLoop_mono _ _ ?_ _ _ _ _ x y h
     intro x' y' hy'
     have := ih _ _ _ hy'
     split at this <;> exact this
@@ -118,18 +119,18 @@ theorem repLoop_strict (es5 g : Bool) (f : MS → List MS) (hf : ∀ x y, y ∈ 
     rw [List.mem_flatMap] at h
     obtain ⟨z, hz, hy⟩ := h
     have hxz := hf x z hz
-    have mono := repLoop_mono es5 g f (fun a b hb => Nat.le_of_lt (hf a b hb))
+    have mono := repLoop_mono g f (fun a b hb => Nat.le_of_lt (hf a b hb))
     cases es5 with
     | true =>
       simp only [if_true] at hy
       split at hy
       · simp at hy
-      · exact Nat.lt_of_lt_of_le hxz (mono _ _ _ z y hy)
+      · exact Nat.lt_of_lt_of_le hxz (mono _ _ _ _ z y hy)
     | false =>
       simp only [Bool.false_eq_true, if_false] at hy
       split at hy
       · simp at hy; subst hy; exact hxz
-      · exact Nat.lt_of_lt_of_le hxz (mono _ _ _ z y hy)
+      · exact Nat.lt_of_lt_of_le hxz (mono _ _ _ _ z y hy)
 
 theorem m_strict (d : Dialect) (s : List Nat) : ∀ (r : Re), nullable r = false → ∀ (gi : Nat) (x y : MS), y ∈ m d s r gi x → x.pos < y.pos := by
   intro r; induction r with
@@ -191,17 +192,21 @@ theorem repLoop_dialect (g : Bool) (f : MS → List MS) (hf : ∀ x y, y ∈ f x
     · rfl
     · have : ((f x).flatMap fun y =>
           if true = true then (if min = 0 ∧ y.pos = x.pos then [] else repLoop true g f fuel (min - 1) (max.map (· - 1)) y)
-          else (if max = none ∧ min ≤ 1 ∧ y.pos = x.pos then [y] else repLoop true g f fuel (min - 1) (max.map (· - 1)) y))
+          else (if max = none ∧ min ≤ 1 ∧ y.pos = x.pos then [y]
+                else repLoop (decide (max = none ∧ min ≤ 1)) g f fuel (min - 1) (max.map (· - 1)) y))
         = ((f x).flatMap fun y =>
           if false = true then (if min = 0 ∧ y.pos = x.pos then [] else repLoop false g f fuel (min - 1) (max.map (· - 1)) y)
-          else (if max = none ∧ min ≤ 1 ∧ y.pos = x.pos then [y] else repLoop false g f fuel (min - 1) (max.map (· - 1)) y)) := by
+          else (if max = none ∧ min ≤ 1 ∧ y.pos = x.pos then [y]
+                else repLoop (decide (max = none ∧ min ≤ 1)) g f fuel (min - 1) (max.map (· - 1)) y)) := by
         apply flatMap_congr'
         intro y hy
         have hp := hf x y hy
         have h1 : ¬ (min = 0 ∧ y.pos = x.pos) := by omega
         have h2 : ¬ (max = none ∧ min ≤ 1 ∧ y.pos = x.pos) := by intro h; omega
         simp only [if_true, Bool.false_eq_true, if_false, h1, h2]
-        exact ih _ _ y
+        cases hb : decide (max = none ∧ min ≤ 1) with
+        | true => rfl
+        | false => exact ih _ _ y
       simp only at this ⊢
       rw [this]
 
